@@ -46,6 +46,24 @@ def has_nan(v):
     return "dbl:nan" in json.dumps(v)
 
 
+def nil_in_set(sc, c):
+    """does a set somewhere in the value hold a nil element?"""
+    def walk(t, v):
+        if v is None or "nil" in v:
+            return False
+        if t["n"] == "set":
+            return any("nil" in e for e in v.get("l", [])) or any(walk(t["v"], e) for e in v.get("l", []))
+        if t["n"] == "list":
+            return any(walk(t["v"], e) for e in v.get("l", []))
+        if t["n"] == "map":
+            return any(walk(t["k"], k) or walk(t["v"], e) for k, e in v.get("m", []))
+        if t["n"] == "struct":
+            fs = v.get("s") if isinstance(v.get("s"), dict) else {}
+            return any(walk(f["type"], fs[f["name"]]) for f in sc["structs"][t["s"]]["fields"] if f["name"] in fs)
+        return False
+    return walk({"n": "struct", "s": c["s"]}, c["v"])
+
+
 def struct_key_class(sc, s):
     def walk(t):
         if t["n"] == "map":
@@ -106,6 +124,8 @@ def run(ctx, args):
                 scen.append({"id": len(scen), "op": "deq", "case": cid, "s": c["s"], "x": {"x": c["x"], "y": c["y"]}})
                 meta.append((cid, "eq", k))
         for k, c in enumerate(wc):
+            if not deq and nil_in_set(sc, c):
+                continue   # without gen_deep_equal equality is reflect.DeepEqual (nil != empty); the statement is about gen_deep_equal
             scen.append({"id": len(scen), "op": "w", "case": cid, "s": c["s"], "v": c["v"]})
             meta.append((cid, "w", k))
     res = lab.run_driver(binary, {cid: sc for cid, _, _ in configs}, scen, "eq", timeout=1500)
